@@ -1,12 +1,833 @@
-//! Extension module (Tier A): owner fills in. Output: coq/gen/TableFns.v
-//! Contract: return (text of the .v file, report lines). Each report line is one JSON object
-//! {"item":"TableFns.<name>","file":"<rust file>","ok":true|false[,"error":"..."]}.
-//! Fail closed: when a site is not recognised, OMIT the Gallina definition (so dependent proofs stop
-//! compiling) and push an ok:false report line.
+//! Extension module (Tier A) for C16. Output: coq/gen/TableFns.v
+//!
+//! Regenerates, from /repo/core-relations/src on every run, the small decision functions of the
+//! table store that coq/Table/Model.v and coq/Table/Displaced.v use:
+//!
+//!  * `table/mod.rs`  `SortedWritesTable::binary_search_sort_val`   -> `binary_search_sort_val`
+//!  * `table/mod.rs`  `<SortedWritesTable as Table>::fast_subset`   -> `fast_subset`
+//!  * `table/mod.rs`  `SortedWritesTable::maybe_rehash` (guard)     -> `maybe_rehash_skip`
+//!  * `table/rebuild.rs` `fn incremental_rebuild`                   -> `incremental_rebuild` (over N)
+//!  * `table/rebuild.rs` `SortedWritesTable::do_rebuild` (strategy) -> `do_rebuild_incremental`
+//!  * `uf/mod.rs`     `DisplacedTable::timestamp_bounds`            -> `timestamp_bounds` (+ loops)
+//!  * `uf/mod.rs`     `<DisplacedTable as Table>::fast_subset`      -> `displaced_fast_subset`
+//!
+//! Scheme: values are `nat` (row ids, column ids, values: all u32 newtypes compared through their
+//! representation), `Result<A,B>` is `rres A B` (Table/Prelude.v), a `Subset::Dense(OffsetRange)` is
+//! the pair `(start, end)`, `Subset::empty()` is `(0, 0)` (its definition in offsets/mod.rs).
+//! Indexing `v[i]` is `idx v i` (Panic out of bounds), `a - b` is `usub a b` (Panic on underflow),
+//! `while` loops become fuel-recursive fixpoints. The standard library's
+//! `binary_search_by_key` is NOT translated: it is the Section variable `std_bs` applied to the list
+//! of keys; the proofs assume only its documented contract.
+//! `self.<field>` / `self.<method>()` are mapped to parameters by an explicit per-item table; any
+//! expression outside the supported subset makes the item fail (definition omitted, ok:false).
+use quote::ToTokens;
+use syn::{spanned::Spanned, BinOp, Expr, ImplItem, Item as SynItem, Lit, Pat, Stmt, UnOp};
 
-pub fn generate(_repo: &std::path::Path) -> (String, Vec<String>) {
-    (
-        "(* GENERATED by /verif/translator (x_table.rs): nothing extracted yet *)\n".to_string(),
-        Vec::new(),
-    )
+type R<T> = Result<T, String>;
+
+fn err<T, S: Spanned>(s: &S, msg: &str) -> R<T> {
+    Err(format!("line {}: {}", s.span().start().line, msg))
+}
+
+fn norm<T: ToTokens>(t: &T) -> String {
+    t.to_token_stream().to_string().chars().filter(|c| !c.is_whitespace()).collect()
+}
+
+struct Cfg {
+    /// name of the emitted Gallina definition
+    name: &'static str,
+    file: &'static str,
+    impl_type: &'static str,
+    fname: &'static str,
+    /// Gallina parameters (text) and the same names as an argument list
+    params: &'static str,
+    args: &'static str,
+    ret: &'static str,
+    /// Rust variables in scope at the start (function parameters)
+    vars: &'static [&'static str],
+    /// normalised Rust expression -> Gallina atom
+    atoms: &'static [(&'static str, &'static str)],
+    /// normalised `self.method` -> Gallina function applied to its fixed arguments (effectful: Res)
+    calls: &'static [(&'static str, &'static str)],
+    fuel: bool,
+}
+
+const CFGS: &[Cfg] = &[
+    Cfg {
+        name: "binary_search_sort_val",
+        file: "core-relations/src/table/mod.rs",
+        impl_type: "SortedWritesTable",
+        fname: "binary_search_sort_val",
+        params: "(offsets : list (nat * nat)) (next_row : nat) (val : nat)",
+        args: "offsets next_row val",
+        ret: "rres (nat * nat) nat",
+        vars: &["val"],
+        atoms: &[("self.offsets", "offsets"), ("self.data.next_row()", "next_row")],
+        calls: &[],
+        fuel: false,
+    },
+    Cfg {
+        name: "fast_subset",
+        file: "core-relations/src/table/mod.rs",
+        impl_type: "SortedWritesTable",
+        fname: "fast_subset",
+        params: "(sort_by_field : option nat) (offsets : list (nat * nat)) (next_row : nat) (constraint : constr)",
+        args: "sort_by_field offsets next_row constraint",
+        ret: "option (nat * nat)",
+        vars: &["constraint"],
+        atoms: &[("self.sort_by", "sort_by_field"), ("self.data.next_row()", "next_row")],
+        calls: &[("self.binary_search_sort_val", "binary_search_sort_val offsets next_row")],
+        fuel: false,
+    },
+    Cfg {
+        name: "timestamp_bounds",
+        file: "core-relations/src/uf/mod.rs",
+        impl_type: "DisplacedTable",
+        fname: "timestamp_bounds",
+        params: "(displaced : list (nat * nat)) (val : nat)",
+        args: "displaced val",
+        ret: "rres (nat * nat) nat",
+        vars: &["val"],
+        atoms: &[("self.displaced", "displaced")],
+        calls: &[],
+        fuel: true,
+    },
+    Cfg {
+        name: "displaced_fast_subset",
+        file: "core-relations/src/uf/mod.rs",
+        impl_type: "DisplacedTable",
+        fname: "fast_subset",
+        params: "(displaced : list (nat * nat)) (lookup_table : list (nat * nat)) (constraint : constr)",
+        args: "displaced lookup_table constraint",
+        ret: "option (nat * nat)",
+        vars: &["constraint"],
+        atoms: &[("self.displaced", "displaced"), ("self.lookup_table.get(val)", "(assoc lookup_table val)")],
+        calls: &[("self.timestamp_bounds", "timestamp_bounds fuel displaced")],
+        fuel: true,
+    },
+];
+
+/// field order of the Gallina constructors of `constr` (Table/Prelude.v)
+const CONSTRAINT_VARIANTS: &[(&str, &str, &[&str])] = &[
+    ("Eq", "CEq", &["l_col", "r_col"]),
+    ("EqConst", "CEqC", &["col", "val"]),
+    ("LtConst", "CLt", &["col", "val"]),
+    ("GtConst", "CGt", &["col", "val"]),
+    ("LeConst", "CLe", &["col", "val"]),
+    ("GeConst", "CGe", &["col", "val"]),
+];
+
+struct Gen<'c> {
+    cfg: &'c Cfg,
+    aux: Vec<String>,
+    tmp: usize,
+    loops: usize,
+    /// plain (non-monadic) definition: no effect allowed
+    pure_mode: bool,
+}
+
+type Scope = Vec<String>;
+
+fn wrap(prefix: Vec<(String, String)>, body: String) -> String {
+    prefix.into_iter().rev().fold(body, |acc, (n, e)| format!("bind ({e}) (fun {n} =>\n{acc})"))
+}
+
+fn path_segs(p: &syn::Path) -> Vec<String> {
+    p.segments.iter().map(|s| s.ident.to_string()).collect()
+}
+
+fn check_name(n: &str) -> R<()> {
+    let is_tmp = n.len() > 1 && n.starts_with('t') && n[1..].chars().all(|c| c.is_ascii_digit());
+    const RESERVED: &[&str] = &[
+        "fuel", "bind", "forall", "exists", "Type", "Prop", "Set", "std_bs", "idx", "usub", "assoc", "fst", "snd", "length", "map",
+        "offsets", "displaced", "next_row", "sort_by_field", "lookup_table",
+    ];
+    if is_tmp || RESERVED.contains(&n) || n.ends_with('_') || n.ends_with("_r") {
+        return Err(format!("variable name {n} may collide with a generated name"));
+    }
+    Ok(())
+}
+
+/// Rust identifiers that are Gallina keywords get a suffix
+fn cn(n: &str) -> String {
+    match n {
+        "end" | "in" | "at" | "as" | "fix" | "fun" | "with" | "then" | "using" | "where" => format!("{n}_r"),
+        _ => n.to_string(),
+    }
+}
+
+/// `|(v, _)| *v` -> fst, `|(_, r)| *r` -> snd
+fn closure_proj(e: &Expr) -> R<&'static str> {
+    let Expr::Closure(c) = e else { return err(e, "expected a projection closure") };
+    if c.inputs.len() != 1 {
+        return err(e, "closure with more than one parameter");
+    }
+    let Pat::Tuple(t) = &c.inputs[0] else { return err(e, "closure parameter is not a pair pattern") };
+    if t.elems.len() != 2 {
+        return err(e, "closure parameter is not a pair pattern");
+    }
+    let body = norm(&*c.body);
+    let name = |p: &Pat| match p {
+        Pat::Ident(i) if i.by_ref.is_none() && i.subpat.is_none() => Some(i.ident.to_string()),
+        _ => None,
+    };
+    match (&t.elems[0], &t.elems[1]) {
+        (a, Pat::Wild(_)) if name(a).map(|n| format!("*{n}")) == Some(body.clone()) => Ok("fst"),
+        (Pat::Wild(_), b) if name(b).map(|n| format!("*{n}")) == Some(body.clone()) => Ok("snd"),
+        _ => err(e, "closure is not a projection of a pair"),
+    }
+}
+
+impl<'c> Gen<'c> {
+    fn fresh(&mut self) -> String {
+        self.tmp += 1;
+        format!("t{}", self.tmp)
+    }
+
+    fn effect(&self, e: &Expr) -> R<()> {
+        if self.pure_mode {
+            return err(e, "effectful expression in a plain definition");
+        }
+        Ok(())
+    }
+
+    /// (effectful bindings to run first, pure atom)
+    fn value(&mut self, e: &Expr, sc: &Scope) -> R<(Vec<(String, String)>, String)> {
+        let n = norm(e);
+        if let Some((_, a)) = self.cfg.atoms.iter().find(|(k, _)| *k == n) {
+            return Ok((vec![], a.to_string()));
+        }
+        match e {
+            Expr::Paren(p) => self.value(&p.expr, sc),
+            Expr::Group(p) => self.value(&p.expr, sc),
+            Expr::Reference(r) if r.mutability.is_none() => self.value(&r.expr, sc),
+            Expr::Unary(u) if matches!(u.op, UnOp::Deref(_)) => self.value(&u.expr, sc),
+            Expr::Unary(u) if matches!(u.op, UnOp::Not(_)) => {
+                let (p, a) = self.value(&u.expr, sc)?;
+                Ok((p, format!("(negb {a})")))
+            }
+            Expr::Lit(l) => match &l.lit {
+                Lit::Int(i) => {
+                    if !(i.suffix().is_empty() || ["u8", "u16", "u32", "u64", "usize"].contains(&i.suffix())) {
+                        return err(e, "integer literal of a non-unsigned type");
+                    }
+                    let d = i.base10_digits().to_string();
+                    if !d.chars().all(|c| c.is_ascii_digit()) {
+                        return err(e, "unsupported integer literal");
+                    }
+                    Ok((vec![], d))
+                }
+                Lit::Bool(b) => Ok((vec![], if b.value { "true".into() } else { "false".into() })),
+                _ => err(e, "unsupported literal"),
+            },
+            Expr::Path(p) if p.qself.is_none() => {
+                let segs = path_segs(&p.path);
+                if segs.len() == 1 && segs[0] == "None" {
+                    return Ok((vec![], "None".into()));
+                }
+                if segs.len() == 1 && sc.contains(&segs[0]) {
+                    return Ok((vec![], cn(&segs[0])));
+                }
+                err(e, &format!("unknown path {}", segs.join("::")))
+            }
+            Expr::Tuple(t) => {
+                let mut pre = vec![];
+                let mut parts = vec![];
+                for x in &t.elems {
+                    let (p, a) = self.value(x, sc)?;
+                    pre.extend(p);
+                    parts.push(a);
+                }
+                if parts.len() < 2 {
+                    return err(e, "unit / 1-tuple");
+                }
+                Ok((pre, format!("({})", parts.join(", "))))
+            }
+            Expr::Field(f) => {
+                let (p, a) = self.value(&f.base, sc)?;
+                match &f.member {
+                    syn::Member::Unnamed(i) if i.index == 0 => Ok((p, format!("(fst {a})"))),
+                    syn::Member::Unnamed(i) if i.index == 1 => Ok((p, format!("(snd {a})"))),
+                    _ => err(e, "unsupported field access"),
+                }
+            }
+            Expr::Index(ix) => {
+                self.effect(e)?;
+                let (mut p, a) = self.value(&ix.expr, sc)?;
+                let (p2, i) = self.value(&ix.index, sc)?;
+                p.extend(p2);
+                let t = self.fresh();
+                p.push((t.clone(), format!("idx {a} {i}")));
+                Ok((p, t))
+            }
+            Expr::Binary(b) => {
+                let (mut p, a) = self.value(&b.left, sc)?;
+                let (p2, c) = self.value(&b.right, sc)?;
+                let s = match &b.op {
+                    BinOp::Lt(_) => format!("({a} <? {c})"),
+                    BinOp::Le(_) => format!("({a} <=? {c})"),
+                    BinOp::Gt(_) => format!("({c} <? {a})"),
+                    BinOp::Ge(_) => format!("({c} <=? {a})"),
+                    BinOp::Eq(_) => format!("({a} =? {c})"),
+                    BinOp::Ne(_) => format!("(negb ({a} =? {c}))"),
+                    BinOp::Add(_) => format!("({a} + {c})"),
+                    BinOp::Mul(_) => format!("({a} * {c})"),
+                    BinOp::Div(_) => {
+                        if !matches!(&*b.right, Expr::Lit(l) if matches!(&l.lit, Lit::Int(i) if i.base10_digits() != "0")) {
+                            return err(e, "division by a non-literal");
+                        }
+                        format!("({a} / {c})")
+                    }
+                    BinOp::And(_) | BinOp::Or(_) => {
+                        // short-circuit only matters when the right operand has an effect
+                        if !p2.is_empty() {
+                            return err(e, "effectful right operand of && / || in value position");
+                        }
+                        let op = if matches!(b.op, BinOp::And(_)) { "&&" } else { "||" };
+                        format!("({a} {op} {c})")
+                    }
+                    BinOp::Sub(_) => {
+                        self.effect(e)?;
+                        p.extend(p2);
+                        let t = self.fresh();
+                        p.push((t.clone(), format!("usub {a} {c}")));
+                        return Ok((p, t));
+                    }
+                    _ => return err(e, "unsupported binary operator"),
+                };
+                p.extend(p2);
+                Ok((p, s))
+            }
+            Expr::Call(c) => {
+                let Expr::Path(fp) = &*c.func else { return err(e, "unsupported call") };
+                let segs = path_segs(&fp.path);
+                let f = segs.join("::");
+                let mut pre = vec![];
+                let mut args = vec![];
+                for x in &c.args {
+                    let (p, a) = self.value(x, sc)?;
+                    pre.extend(p);
+                    args.push(a);
+                }
+                let s = match (f.as_str(), args.len()) {
+                    ("Ok", 1) => format!("(ROk {})", args[0]),
+                    ("Err", 1) => format!("(RErr {})", args[0]),
+                    ("Some", 1) => format!("(Some {})", args[0]),
+                    // id newtypes are their representation; a dense subset is its range
+                    ("RowId::new", 1) | ("RowId::from_usize", 1) | ("ColumnId::new", 1) | ("Subset::Dense", 1) => {
+                        args[0].clone()
+                    }
+                    ("OffsetRange::new", 2) => format!("({}, {})", args[0], args[1]),
+                    // offsets/mod.rs: Subset::empty() = Dense(OffsetRange::new(0, 0))
+                    ("Subset::empty", 0) => "(0, 0)".to_string(),
+                    ("cmp::max", 2) => format!("(Nat.max {} {})", args[0], args[1]),
+                    _ => return err(e, &format!("unsupported call {f}(..)")),
+                };
+                Ok((pre, s))
+            }
+            Expr::MethodCall(m) => {
+                let name = m.method.to_string();
+                // calls to other translated methods of self
+                let callee = format!("{}.{}", norm(&*m.receiver), name);
+                if let Some((_, g)) = self.cfg.calls.iter().find(|(k, _)| *k == callee) {
+                    self.effect(e)?;
+                    let mut pre = vec![];
+                    let mut args = vec![];
+                    for x in &m.args {
+                        let (p, a) = self.value(x, sc)?;
+                        pre.extend(p);
+                        args.push(a);
+                    }
+                    let t = self.fresh();
+                    pre.push((t.clone(), format!("{g} {}", args.join(" "))));
+                    return Ok((pre, t));
+                }
+                match (name.as_str(), m.args.len()) {
+                    ("index", 0) => self.value(&m.receiver, sc),
+                    ("len", 0) => {
+                        let (p, a) = self.value(&m.receiver, sc)?;
+                        Ok((p, format!("(length {a})")))
+                    }
+                    ("binary_search_by_key", 2) => {
+                        let (mut p, a) = self.value(&m.receiver, sc)?;
+                        let (p2, k) = self.value(&m.args[0], sc)?;
+                        p.extend(p2);
+                        let proj = closure_proj(&m.args[1])?;
+                        Ok((p, format!("(std_bs (map {proj} {a}) {k})")))
+                    }
+                    // v.get(i).map(|(_, r)| *r).unwrap_or(d)
+                    ("unwrap_or", 1) => {
+                        let Expr::MethodCall(mm) = &*m.receiver else { return err(e, "unsupported unwrap_or receiver") };
+                        if mm.method != "map" || mm.args.len() != 1 {
+                            return err(e, "unsupported unwrap_or receiver");
+                        }
+                        let proj = closure_proj(&mm.args[0])?;
+                        let Expr::MethodCall(mg) = &*mm.receiver else { return err(e, "unsupported map receiver") };
+                        if mg.method != "get" || mg.args.len() != 1 {
+                            return err(e, "unsupported map receiver");
+                        }
+                        let (mut p, v) = self.value(&mg.receiver, sc)?;
+                        let (p2, i) = self.value(&mg.args[0], sc)?;
+                        let (p3, d) = self.value(&m.args[0], sc)?;
+                        p.extend(p2);
+                        p.extend(p3);
+                        Ok((p, format!("(match nth_error {v} {i} with Some p_ => {proj} p_ | None => {d} end)")))
+                    }
+                    _ => err(e, &format!("unsupported method call .{name}()")),
+                }
+            }
+            Expr::Match(m) => {
+                // a match whose arms are all effect-free values
+                let (p, s) = self.value(&m.expr, sc)?;
+                let mut arms = String::new();
+                for arm in &m.arms {
+                    if arm.guard.is_some() {
+                        return err(arm, "match guard");
+                    }
+                    let mut sc2 = sc.clone();
+                    let pat = self.pattern(&arm.pat, &mut sc2)?;
+                    let (pa, v) = self.value(&arm.body, &sc2)?;
+                    if !pa.is_empty() {
+                        return err(arm, "effectful arm of a match in value position");
+                    }
+                    arms.push_str(&format!("| {pat} => {v} "));
+                }
+                Ok((p, format!("(match {s} with {arms}end)")))
+            }
+            Expr::Block(b) if b.label.is_none() && b.block.stmts.len() == 1 => match &b.block.stmts[0] {
+                Stmt::Expr(x, None) => self.value(x, sc),
+                _ => err(e, "unsupported block in value position"),
+            },
+            _ => err(e, "unsupported expression"),
+        }
+    }
+
+    fn pattern(&mut self, p: &Pat, sc: &mut Scope) -> R<String> {
+        match p {
+            Pat::Wild(_) => Ok("_".into()),
+            Pat::Paren(pp) => self.pattern(&pp.pat, sc),
+            Pat::Ident(i) if i.by_ref.is_none() && i.subpat.is_none() => {
+                let n = i.ident.to_string();
+                if n == "None" {
+                    return Ok("None".into());
+                }
+                check_name(&n)?;
+                if !sc.contains(&n) {
+                    sc.push(n.clone());
+                }
+                Ok(cn(&n))
+            }
+            Pat::Path(pp) if path_segs(&pp.path) == ["None"] => Ok("None".into()),
+            Pat::Tuple(t) => {
+                let mut parts = vec![];
+                for x in &t.elems {
+                    parts.push(self.pattern(x, sc)?);
+                }
+                if parts.len() < 2 {
+                    return err(p, "unit / 1-tuple pattern");
+                }
+                Ok(format!("({})", parts.join(", ")))
+            }
+            Pat::TupleStruct(ts) => {
+                let f = path_segs(&ts.path).join("::");
+                if ts.elems.len() != 1 {
+                    return err(p, "unsupported constructor pattern");
+                }
+                let inner = self.pattern(&ts.elems[0], sc)?;
+                match f.as_str() {
+                    "Ok" => Ok(format!("ROk {inner}")),
+                    "Err" => Ok(format!("RErr {inner}")),
+                    "Some" => Ok(format!("Some {inner}")),
+                    _ => err(p, "unsupported constructor pattern"),
+                }
+            }
+            Pat::Struct(s) => {
+                let segs = path_segs(&s.path);
+                if segs.len() != 2 || segs[0] != "Constraint" {
+                    return err(p, "unsupported struct pattern");
+                }
+                let Some((_, ctor, fields)) = CONSTRAINT_VARIANTS.iter().find(|(v, _, _)| *v == segs[1]) else {
+                    return err(p, "unknown Constraint variant");
+                };
+                let mut out = vec!["_".to_string(); fields.len()];
+                for fp in &s.fields {
+                    let syn::Member::Named(id) = &fp.member else { return err(p, "unsupported field pattern") };
+                    let Some(pos) = fields.iter().position(|f| id == f) else { return err(p, "unknown Constraint field") };
+                    out[pos] = self.pattern(&fp.pat, sc)?;
+                }
+                if s.fields.len() != fields.len() && s.rest.is_none() {
+                    return err(p, "Constraint pattern misses fields");
+                }
+                Ok(format!("{ctor} {}", out.join(" ")))
+            }
+            Pat::Or(o) => {
+                // every alternative must bind the same variables (checked by Coq as well)
+                let mut alts = vec![];
+                for c in &o.cases {
+                    alts.push(self.pattern(c, sc)?);
+                }
+                Ok(alts.join(" | "))
+            }
+            _ => err(p, "unsupported pattern"),
+        }
+    }
+
+    fn ret(&self, v: String) -> String {
+        if self.pure_mode {
+            v
+        } else {
+            format!("Ok {v}")
+        }
+    }
+
+    /// `if e then t else f` with short-circuit evaluation of `&&`, `||`, `!`
+    fn cond(&mut self, e: &Expr, sc: &Scope, t: String, f: String) -> R<String> {
+        match e {
+            Expr::Paren(p) => self.cond(&p.expr, sc, t, f),
+            Expr::Binary(b) if matches!(b.op, BinOp::And(_)) => {
+                let inner = self.cond(&b.right, sc, t, f.clone())?;
+                self.cond(&b.left, sc, inner, f)
+            }
+            Expr::Binary(b) if matches!(b.op, BinOp::Or(_)) => {
+                let inner = self.cond(&b.right, sc, t.clone(), f)?;
+                self.cond(&b.left, sc, t, inner)
+            }
+            Expr::Unary(u) if matches!(u.op, UnOp::Not(_)) => self.cond(&u.expr, sc, f, t),
+            Expr::Let(_) => err(e, "if let"),
+            _ => {
+                let (p, a) = self.value(e, sc)?;
+                Ok(wrap(p, format!("if {a} then\n{t}\nelse\n{f}")))
+            }
+        }
+    }
+
+    /// an expression in tail position: a term of the function's result type
+    fn tail(&mut self, e: &Expr, sc: &Scope) -> R<String> {
+        match e {
+            Expr::Paren(p) => self.tail(&p.expr, sc),
+            Expr::Block(b) if b.label.is_none() => self.block(&b.block.stmts, sc.clone()),
+            Expr::Return(r) => match &r.expr {
+                Some(x) => self.tail(x, sc),
+                None => err(e, "return without a value"),
+            },
+            Expr::If(i) => {
+                let t = self.block(&i.then_branch.stmts, sc.clone())?;
+                let f = match &i.else_branch {
+                    Some((_, eb)) => self.tail(eb, sc)?,
+                    None => return err(e, "if without else in tail position"),
+                };
+                self.cond(&i.cond, sc, t, f)
+            }
+            Expr::Match(m) => {
+                let (p, s) = self.value(&m.expr, sc)?;
+                let mut arms = String::new();
+                for arm in &m.arms {
+                    if arm.guard.is_some() {
+                        return err(arm, "match guard");
+                    }
+                    let mut sc2 = sc.clone();
+                    let pat = self.pattern(&arm.pat, &mut sc2)?;
+                    let body = self.tail(&arm.body, &sc2)?;
+                    arms.push_str(&format!("| {pat} =>\n{body}\n"));
+                }
+                Ok(wrap(p, format!("match {s} with\n{arms}end")))
+            }
+            _ => {
+                let (p, v) = self.value(e, sc)?;
+                Ok(wrap(p, self.ret(v)))
+            }
+        }
+    }
+
+    fn ends_in_return(stmts: &[Stmt]) -> bool {
+        matches!(stmts.last(), Some(Stmt::Expr(Expr::Return(_), _)))
+    }
+
+    fn block(&mut self, stmts: &[Stmt], mut sc: Scope) -> R<String> {
+        let Some((first, rest)) = stmts.split_first() else {
+            return Err("block falls off its end without a value".into());
+        };
+        match first {
+            // debug assertions are not part of the release behaviour the harness observes
+            Stmt::Macro(m) if m.mac.path.is_ident("debug_assert") => self.block(rest, sc),
+            Stmt::Local(l) => {
+                let name = match &l.pat {
+                    Pat::Ident(p) if p.by_ref.is_none() && p.subpat.is_none() => p.ident.to_string(),
+                    _ => return err(first, "unsupported let pattern"),
+                };
+                check_name(&name)?;
+                if sc.contains(&name) {
+                    return err(first, &format!("let {name} shadows a variable in scope"));
+                }
+                let init = match &l.init {
+                    Some(i) if i.diverge.is_none() => &*i.expr,
+                    _ => return err(first, "let without initialiser / let-else"),
+                };
+                if let Expr::Try(t) = init {
+                    // `let x = <option>?;` in a function returning Option
+                    if !self.cfg.ret.starts_with("option") {
+                        return err(first, "? outside an Option-returning function");
+                    }
+                    let (p, v) = self.value(&t.expr, &sc)?;
+                    sc.push(name.clone());
+                    let body = self.block(rest, sc)?;
+                    let none = self.ret("None".into());
+                    return Ok(wrap(p, format!("match {v} with\n| Some {name} =>\n{body}\n| None => {none}\nend")));
+                }
+                let (p, v) = self.value(init, &sc)?;
+                sc.push(name.clone());
+                let body = self.block(rest, sc)?;
+                Ok(wrap(p, format!("let {name} := {v} in\n{body}")))
+            }
+            Stmt::Expr(Expr::If(i), _) if i.else_branch.is_none() && !rest.is_empty() => {
+                if !Self::ends_in_return(&i.then_branch.stmts) {
+                    return err(first, "if without else that does not return");
+                }
+                let t = self.block(&i.then_branch.stmts, sc.clone())?;
+                let f = self.block(rest, sc.clone())?;
+                self.cond(&i.cond, &sc, t, f)
+            }
+            Stmt::Expr(Expr::While(w), _) if !rest.is_empty() => {
+                self.effect(&w.cond)?;
+                if w.label.is_some() || !self.cfg.fuel {
+                    return err(first, "labelled while / item without fuel");
+                }
+                // body: exactly one `x += e;` / `x -= e;` on a local variable
+                let [Stmt::Expr(Expr::Binary(b), Some(_))] = w.body.stmts.as_slice() else {
+                    return err(first, "unsupported while body");
+                };
+                let Expr::Path(lp) = &*b.left else { return err(first, "unsupported while body") };
+                let Some(x) = lp.path.get_ident().map(|i| i.to_string()) else { return err(first, "unsupported while body") };
+                if !sc.contains(&x) || self.cfg.vars.contains(&x.as_str()) {
+                    return err(first, "while body assigns something other than a local variable");
+                }
+                let (mut p, v) = self.value(&b.right, &sc)?;
+                let step = match b.op {
+                    BinOp::AddAssign(_) => format!("({x} + {v})"),
+                    BinOp::SubAssign(_) => {
+                        let t = self.fresh();
+                        p.push((t.clone(), format!("usub {x} {v}")));
+                        t
+                    }
+                    _ => return err(first, "unsupported while body"),
+                };
+                self.loops += 1;
+                let lname = format!("{}_loop{}", self.cfg.name, self.loops);
+                let locals: Vec<String> = sc.iter().filter(|v| !self.cfg.vars.contains(&v.as_str())).cloned().collect();
+                let lparams: String = locals.iter().map(|v| format!(" ({v} : nat)")).collect();
+                let largs = format!("{} {}", self.cfg.args, locals.join(" "));
+                let again = wrap(p, format!("let {x} := {step} in\n{lname} fuel {largs}"));
+                let body = self.cond(&w.cond, &sc, again, format!("Ok {x}"))?;
+                self.aux.push(format!(
+                    "Fixpoint {lname} (fuel : nat) {}{lparams} {{struct fuel}} : Res nat :=\nmatch fuel with\n| O => OutOfFuel\n| S fuel =>\n{body}\nend.\n",
+                    self.cfg.params
+                ));
+                let after = self.block(rest, sc.clone())?;
+                Ok(format!("bind ({lname} fuel {largs}) (fun {x} =>\n{after})"))
+            }
+            Stmt::Expr(e, _) if rest.is_empty() => self.tail(e, &sc),
+            _ => err(first, "unsupported statement"),
+        }
+    }
+}
+
+fn find_fn<'a>(file: &'a syn::File, impl_type: &str, fname: &str) -> Option<(&'a syn::Signature, &'a syn::Block)> {
+    for it in &file.items {
+        match it {
+            SynItem::Fn(f) if impl_type.is_empty() && f.sig.ident == fname => return Some((&f.sig, &f.block)),
+            SynItem::Impl(im) if !impl_type.is_empty() => {
+                let ty = match &*im.self_ty {
+                    syn::Type::Path(p) => p.path.segments.last().map(|s| s.ident.to_string()),
+                    _ => None,
+                };
+                if ty.as_deref() != Some(impl_type) {
+                    continue;
+                }
+                for ii in &im.items {
+                    if let ImplItem::Fn(f) = ii {
+                        if f.sig.ident == fname {
+                            return Some((&f.sig, &f.block));
+                        }
+                    }
+                }
+            }
+            _ => {}
+        }
+    }
+    None
+}
+
+fn parse(repo: &std::path::Path, file: &str) -> R<syn::File> {
+    let src = std::fs::read_to_string(repo.join(file)).map_err(|e| format!("cannot read {file}: {e}"))?;
+    syn::parse_file(&src).map_err(|e| format!("parse error in {file}: {e}"))
+}
+
+fn translate_cfg(repo: &std::path::Path, cfg: &Cfg) -> R<String> {
+    let file = parse(repo, cfg.file)?;
+    let (sig, block) = find_fn(&file, cfg.impl_type, cfg.fname).ok_or_else(|| format!("fn {}::{} not found", cfg.impl_type, cfg.fname))?;
+    // the parameter names the per-item table relies on
+    let mut names = vec![];
+    for a in &sig.inputs {
+        match a {
+            syn::FnArg::Receiver(r) if r.mutability.is_none() && r.reference.is_some() => {}
+            syn::FnArg::Typed(pt) => match &*pt.pat {
+                Pat::Ident(p) if p.by_ref.is_none() && p.mutability.is_none() => names.push(p.ident.to_string()),
+                _ => return err(a, "unsupported parameter pattern"),
+            },
+            _ => return err(a, "receiver must be &self"),
+        }
+    }
+    if names.iter().map(|s| s.as_str()).collect::<Vec<_>>() != cfg.vars {
+        return Err(format!("parameters {:?}, expected {:?}", names, cfg.vars));
+    }
+    let mut g = Gen { cfg, aux: vec![], tmp: 0, loops: 0, pure_mode: false };
+    let body = g.block(&block.stmts, cfg.vars.iter().map(|s| s.to_string()).collect())?;
+    let mut out = String::new();
+    for a in &g.aux {
+        out.push_str(a);
+        out.push('\n');
+    }
+    out.push_str(&format!(
+        "Definition {} {}{} : Res ({}) :=\n{body}.\n",
+        cfg.name,
+        if cfg.fuel { "(fuel : nat) " } else { "" },
+        cfg.params,
+        cfg.ret
+    ));
+    Ok(out)
+}
+
+/// `fn incremental_rebuild(uf_size, table_size, parallel) -> bool` of table/rebuild.rs, over N
+fn translate_incremental(repo: &std::path::Path) -> R<String> {
+    const C: Cfg = Cfg {
+        name: "incremental_rebuild",
+        file: "core-relations/src/table/rebuild.rs",
+        impl_type: "",
+        fname: "incremental_rebuild",
+        params: "(uf_size table_size : N) (parallel : bool)",
+        args: "uf_size table_size parallel",
+        ret: "bool",
+        vars: &["uf_size", "table_size", "parallel"],
+        atoms: &[],
+        calls: &[],
+        fuel: false,
+    };
+    let file = parse(repo, C.file)?;
+    let (sig, block) = find_fn(&file, "", C.fname).ok_or("fn incremental_rebuild not found")?;
+    if norm(&sig.inputs) != "uf_size:usize,table_size:usize,parallel:bool" || norm(&sig.output) != "->bool" {
+        return Err(format!("unexpected signature {}", norm(sig)));
+    }
+    let mut g = Gen { cfg: &C, aux: vec![], tmp: 0, loops: 0, pure_mode: true };
+    let body = g.block(&block.stmts, C.vars.iter().map(|s| s.to_string()).collect())?;
+    Ok(format!("Definition incremental_rebuild {} : bool :=\n({body})%N.\n", C.params))
+}
+
+/// the guard of `maybe_rehash`: `if <cond> { return; }` followed by the (parallel or serial) rehash
+fn translate_maybe_rehash(repo: &std::path::Path) -> R<String> {
+    const C: Cfg = Cfg {
+        name: "maybe_rehash_skip",
+        file: "core-relations/src/table/mod.rs",
+        impl_type: "SortedWritesTable",
+        fname: "maybe_rehash",
+        params: "(stale_rows data_len : nat)",
+        args: "stale_rows data_len",
+        ret: "bool",
+        vars: &[],
+        atoms: &[("self.data.stale_rows", "stale_rows"), ("self.data.data.len()", "data_len")],
+        calls: &[],
+        fuel: false,
+    };
+    let file = parse(repo, C.file)?;
+    let (_, block) = find_fn(&file, C.impl_type, C.fname).ok_or("fn maybe_rehash not found")?;
+    let [Stmt::Expr(Expr::If(guard), _), Stmt::Expr(Expr::If(disp), _)] = block.stmts.as_slice() else {
+        return Err("maybe_rehash: expected `if <guard> { return; }` followed by the rehash dispatch".into());
+    };
+    if guard.else_branch.is_some() || norm(&guard.then_branch) != "{return;}" {
+        return Err("maybe_rehash: guard is not `if <cond> { return; }`".into());
+    }
+    let d = norm(disp);
+    if d != "ifparallelize_table_op(self.data.data.len()){self.parallel_rehash();}else{self.rehash();}" {
+        return Err(format!("maybe_rehash: unexpected dispatch {d}"));
+    }
+    let mut g = Gen { cfg: &C, aux: vec![], tmp: 0, loops: 0, pure_mode: true };
+    let (p, v) = g.value(&guard.cond, &vec![])?;
+    if !p.is_empty() {
+        return Err("maybe_rehash: effectful guard".into());
+    }
+    Ok(format!("Definition maybe_rehash_skip {} : bool :=\n{v}.\n", C.params))
+}
+
+/// the strategy choice of `do_rebuild`: incremental iff the rebuilder has a hint column and
+/// `incremental_rebuild(to_scan.size(), next_row, parallelize_rebuild(to_scan.size()))`
+fn translate_do_rebuild(repo: &std::path::Path) -> R<String> {
+    let file = parse(repo, "core-relations/src/table/rebuild.rs")?;
+    let (_, block) = find_fn(&file, "SortedWritesTable", "do_rebuild").ok_or("fn do_rebuild not found")?;
+    let Some(Stmt::Expr(Expr::If(outer), None)) = block.stmts.last() else {
+        return Err("do_rebuild: last statement is not the strategy `if`".into());
+    };
+    if norm(&*outer.cond) != "letSome(hint_col)=rebuilder.hint_col()" {
+        return Err(format!("do_rebuild: unexpected outer condition {}", norm(&*outer.cond)));
+    }
+    let Some((_, else_b)) = &outer.else_branch else { return Err("do_rebuild: no else".into()) };
+    let full = "{self.rebuild_nonincremental(&*rebuilder,next_ts,exec_state)}";
+    if norm(&**else_b) != full {
+        return Err("do_rebuild: the no-hint branch is not the full rebuild".into());
+    }
+    let [Stmt::Local(l), Stmt::Expr(Expr::If(inner), None)] = outer.then_branch.stmts.as_slice() else {
+        return Err("do_rebuild: unexpected hint branch".into());
+    };
+    if norm(l) != "letto_scan=self.subset_tracker.recent_updates(table_id,table);" {
+        return Err("do_rebuild: unexpected to_scan".into());
+    }
+    if norm(&*inner.cond) != "incremental_rebuild(to_scan.size(),self.data.next_row().index(),parallelize_rebuild(to_scan.size()),)" {
+        return Err(format!("do_rebuild: unexpected strategy test {}", norm(&*inner.cond)));
+    }
+    if norm(&inner.then_branch) != "{self.rebuild_incremental(table,&*rebuilder,hint_col,to_scan,next_ts,exec_state)}" {
+        return Err("do_rebuild: unexpected incremental branch".into());
+    }
+    match &inner.else_branch {
+        Some((_, e)) if norm(&**e) == full => {}
+        _ => return Err("do_rebuild: unexpected full branch".into()),
+    }
+    Ok("Definition do_rebuild_incremental (has_hint_col : bool) (to_scan_size next_row : N) (parallelize : bool) : bool :=\nif has_hint_col then incremental_rebuild to_scan_size next_row parallelize else false.\n".to_string())
+}
+
+pub fn generate(repo: &std::path::Path) -> (String, Vec<String>) {
+    let mut rep = Vec::new();
+    let mut plain = String::new();
+    let mut sect = String::new();
+    let mut emit = |dst: &mut String, name: &str, file: &str, origin: &str, res: R<String>| match res {
+        Ok(text) => {
+            dst.push_str(&format!("(* {origin} *)\n{text}\n"));
+            rep.push(format!("{{\"item\":\"TableFns.{name}\",\"file\":\"{file}\",\"ok\":true}}"));
+        }
+        Err(e) => {
+            dst.push_str(&format!("(* {origin}: translation FAILED ({}); definition omitted *)\n\n", e.replace("*)", "* )")));
+            rep.push(format!("{{\"item\":\"TableFns.{name}\",\"file\":\"{file}\",\"ok\":false,\"error\":{:?}}}", e));
+        }
+    };
+    emit(&mut plain, "maybe_rehash_skip", "core-relations/src/table/mod.rs", "core-relations/src/table/mod.rs SortedWritesTable::maybe_rehash (guard)", translate_maybe_rehash(repo));
+    let inc = translate_incremental(repo);
+    let inc_ok = inc.is_ok();
+    emit(&mut plain, "incremental_rebuild", "core-relations/src/table/rebuild.rs", "core-relations/src/table/rebuild.rs fn incremental_rebuild", inc);
+    let dr = if inc_ok { translate_do_rebuild(repo) } else { Err("incremental_rebuild was not translated".into()) };
+    emit(&mut plain, "do_rebuild_incremental", "core-relations/src/table/rebuild.rs", "core-relations/src/table/rebuild.rs SortedWritesTable::do_rebuild (strategy choice)", dr);
+    let mut failed: Vec<&str> = vec![];
+    for cfg in CFGS {
+        // an item that calls a failed item is omitted as well
+        let dep_failed = cfg.calls.iter().any(|(_, g)| failed.iter().any(|f| g.split(' ').next() == Some(*f)));
+        let res = if dep_failed { Err("a function it calls was not translated".to_string()) } else { translate_cfg(repo, cfg) };
+        if res.is_err() {
+            failed.push(cfg.name);
+        }
+        emit(&mut sect, cfg.name, cfg.file, &format!("{} {}::{}", cfg.file, cfg.impl_type, cfg.fname), res);
+    }
+    let mut out = String::new();
+    out.push_str("(* GENERATED by /verif/translator (x_table.rs) from /repo/core-relations -- do not edit *)\n");
+    out.push_str("From Coq Require Import List Arith PeanoNat NArith Bool.\nImport ListNotations.\nRequire Import Verif.Base.Res Verif.Table.Prelude.\nOpen Scope bool_scope.\n\n");
+    out.push_str(&plain);
+    out.push_str("Section TableFns.\n(* [T]::binary_search_by_key of the standard library, applied to the list of keys: NOT translated;\n   the proofs assume only its documented contract (Table/Prelude.v, bs_contract) *)\nVariable std_bs : list nat -> nat -> rres nat nat.\n\n");
+    out.push_str(&sect);
+    out.push_str("End TableFns.\n");
+    (out, rep)
 }
